@@ -60,7 +60,8 @@ MANIFEST = dict(
          "lifetimes each ended by close or death, a leftover temp file included, the file is the accepted changes of a prefix of "
          "every lifetime (reopen_prefix_consistent) and of everything when all closed normally (reopen_durable); sync adopts a "
          "writer's result only if no change was accepted since the snapshot (adopt_safe); after close the file holds exactly the "
-         "live contents (durable_full), = the accepted changes applied to the initial file once C09's tombstone repair is merged "
+         "live contents (durable_full), a normal close is reachable from every state in <= 22 writer/Drop steps, no deadlock "
+         "(close_always_completes), = the accepted changes applied to the initial file once C09's tombstone repair is merged "
          "(durable_spec); the same through the editor's learn / unlearn / reopen+flush-after-key pattern over Layered's forwarding "
          "(editor_durable, editor_atomic, editor_never_adopts). SQLite back end: SQLite's transaction guarantee is TRUSTED; over a "
          "relational step model (Model/PersistSql.lean: two relations, five statements, a transaction as a private working copy, "
